@@ -53,7 +53,6 @@ var allowedBlockTags = map[string]bool{
 	"main":       true,
 	"menu":       true,
 	"menuitem":   true,
-	"meta":       true,
 	"nav":        true,
 	"noframes":   true,
 	"ol":         true,
